@@ -239,7 +239,13 @@ func GenRule(ch *core.Chooser, k int, hosts []string, prev []string) string {
 		return pre + h + "^$" + pick(ch, "rule.type", typeOpts)
 	case KWebDomain:
 		d := pick(ch, "rule.host2", hosts)
-		switch ch.Intn("rule.domainform", 4) {
+		switch ch.Intn("rule.domainform", 7) {
+		case 4:
+			return "*$image,domain=" + d
+		case 5:
+			return "*$" + pick(ch, "rule.type", typeOpts) + ",third-party,domain=" + d
+		case 6:
+			return pick(ch, "rule.path", pathPatterns) + "$domain=" + d
 		case 0:
 			return "||" + h + "^$domain=" + d
 		case 1:
@@ -252,6 +258,10 @@ func GenRule(ch *core.Chooser, k int, hosts []string, prev []string) string {
 	case KWebThirdParty:
 		return "||" + h + "^$" + []string{"third-party", "~third-party", "third-party,script"}[ch.Intn("rule.tp", 3)]
 	case KWebDocAllow:
+		if ch.Intn("rule.docpath", 3) == 2 {
+			// document-level exception for one page of the site only
+			return "@@||" + h + pick(ch, "rule.srcpath", []string{"/checkout", "/news", "/page"}) + "^$" + []string{"urlblock", "genericblock", "document", "elemhide"}[ch.Intn("rule.doc", 4)]
+		}
 		return "@@||" + h + "^$" + []string{"document", "urlblock", "genericblock", "elemhide", "generichide", "jsinject", "stealth", "content"}[ch.Intn("rule.doc", 8)]
 	case KWebMatchCase:
 		return "/AdS.js$match-case"
